@@ -12,7 +12,7 @@ EXTENDS Syntax, Json, Randomization
 CONSTANTS Mode,      \* "trees" | "mut"
           Tier,      \* "quick" | "thorough"
           Parts      \* the parts of the universe to run
-VARIABLES c, pm, pr
+VARIABLES c, ph
 
 A == <<"var", "a">>
 B == <<"var", "b">>
@@ -60,23 +60,29 @@ Fstr(v) == <<"fstr", v>>
 Fex(e) == <<"fexpr", e>>
 MLoc(b) == <<"mlocal", b>>
 
+SeqOf(S) == LET RECURSIVE Go(_)
+                Go(R) == IF R = {} THEN <<>> ELSE LET x == CHOOSE x \in R : TRUE IN <<x>> \o Go(R \ {x})
+            IN Go(S)
+
 Ops20 == BinOpSet \cup {"insuper"}
 LevelOps == {"*", "+", "<<", "<", "in", "insuper", "==", "&", "^", "|", "&&", "||"}   \* every level once (+ in super)
-OtherOps == {"/", "%", "-", ">>", ">", "<=", ">=", "!="}
+
+(* The state variable c is a DESCRIPTOR <<part, indices...>> (cheap to enumerate and  *)
+(* to fingerprint); TreeOf(c) builds the syntax tree when the invariant is evaluated. *)
 
 (* --- part 1: all ordered pairs of binary operators in both nestings ------ *)
-Pairs(u_) == {Bop(o1, Bop(o2, A, B), C) : o1 \in Ops20, o2 \in Ops20}
-         \cup {Bop(o1, A, Bop(o2, B, C)) : o1 \in BinOpSet, o2 \in Ops20}
+PairTree(nest, o1, o2) == IF nest = 1 THEN Bop(o1, Bop(o2, A, B), C) ELSE Bop(o1, A, Bop(o2, B, C))
+PairDescs == {<<"pair", nest, o1, o2>> : nest \in {1, 2}, o1 \in Ops20, o2 \in Ops20}
 
 (* --- part 2: triples, the five shapes ------------------------------------- *)
 TriOps == IF Tier = "quick" THEN LevelOps ELSE Ops20
-Triples(sh) ==
-  CASE sh = 1 -> {Bop(o1, Bop(o2, Bop(o3, A, B), C), D) : o1 \in TriOps, o2 \in TriOps, o3 \in TriOps}
-    [] sh = 2 -> {Bop(o1, Bop(o2, A, Bop(o3, B, C)), D) : o1 \in TriOps, o2 \in TriOps \ {"insuper"}, o3 \in TriOps}
-    [] sh = 3 -> {Bop(o1, Bop(o2, A, B), Bop(o3, C, D)) : o1 \in TriOps \ {"insuper"}, o2 \in TriOps, o3 \in TriOps}
-    [] sh = 4 -> {Bop(o1, A, Bop(o2, Bop(o3, B, C), D)) : o1 \in TriOps \ {"insuper"}, o2 \in TriOps, o3 \in TriOps}
-    [] sh = 5 -> {Bop(o1, A, Bop(o2, B, Bop(o3, C, D))) : o1 \in TriOps \ {"insuper"}, o2 \in TriOps \ {"insuper"},
-                                                           o3 \in TriOps}
+TripleTree(sh, o1, o2, o3) ==
+  CASE sh = 1 -> Bop(o1, Bop(o2, Bop(o3, A, B), C), D)
+    [] sh = 2 -> Bop(o1, Bop(o2, A, Bop(o3, B, C)), D)
+    [] sh = 3 -> Bop(o1, Bop(o2, A, B), Bop(o3, C, D))
+    [] sh = 4 -> Bop(o1, A, Bop(o2, Bop(o3, B, C), D))
+    [] sh = 5 -> Bop(o1, A, Bop(o2, B, Bop(o3, C, D)))
+TripleDescs == {<<"triple", sh, o1, o2, o3>> : sh \in 1..5, o1 \in TriOps, o2 \in TriOps, o3 \in TriOps}
 
 (* --- part 3: unary x binary x postfix in every nesting order --------------- *)
 NPost == 7
@@ -91,86 +97,102 @@ Post(p, h) ==
 BL(o, h) == Bop(o, h, Y)
 BR(o, h) == Bop(o, X, h)
 UbpOps == IF Tier = "quick" THEN LevelOps \ {"insuper"} ELSE BinOpSet
-UBP(u) ==
-  UNION {{ Un(u, BL(o, Post(p, A))), Un(u, BR(o, Post(p, A))), Un(u, Post(p, BL(o, A))),
-           BL(o, Un(u, Post(p, A))), BR(o, Un(u, Post(p, A))), BL(o, Post(p, Un(u, A))), BR(o, Post(p, Un(u, A))),
-           Post(p, Un(u, BL(o, A))), Post(p, Un(u, BR(o, A))), Post(p, BL(o, Un(u, A))), Post(p, BR(o, Un(u, A))),
-           Un(u, InSuper(Post(p, A))), InSuper(Un(u, Post(p, A))), Post(p, InSuper(Un(u, A))),
-           Un(u, Un("-", Post(p, A))), Un("-", Un(u, Post(p, A))), Post(p, Un("!", Un(u, A))) }
-         : o \in UbpOps, p \in 1..NPost}
+UbpUns == IF Tier = "quick" THEN {"-", "!"} ELSE UnOpSet
+NUbpForms == 17
+UbpTree(fm, u, o, p) ==
+  CASE fm = 1 -> Un(u, BL(o, Post(p, A)))  [] fm = 2 -> Un(u, BR(o, Post(p, A)))
+    [] fm = 3 -> Un(u, Post(p, BL(o, A)))  [] fm = 4 -> BL(o, Un(u, Post(p, A)))
+    [] fm = 5 -> BR(o, Un(u, Post(p, A)))  [] fm = 6 -> BL(o, Post(p, Un(u, A)))
+    [] fm = 7 -> BR(o, Post(p, Un(u, A)))  [] fm = 8 -> Post(p, Un(u, BL(o, A)))
+    [] fm = 9 -> Post(p, Un(u, BR(o, A)))  [] fm = 10 -> Post(p, BL(o, Un(u, A)))
+    [] fm = 11 -> Post(p, BR(o, Un(u, A))) [] fm = 12 -> Un(u, InSuper(Post(p, A)))
+    [] fm = 13 -> InSuper(Un(u, Post(p, A))) [] fm = 14 -> Post(p, InSuper(Un(u, A)))
+    [] fm = 15 -> Un(u, Un("-", Post(p, A))) [] fm = 16 -> Un("-", Un(u, Post(p, A)))
+    [] fm = 17 -> Post(p, Un("!", Un(u, A)))
+UbpDescs == {<<"ubp", fm, u, o, p>> : fm \in 1..NUbpForms, u \in UbpUns, o \in UbpOps, p \in 1..NPost}
 
 (* --- part 4: one-hole contexts composed with fillers ------------------------ *)
-CtxOps == IF Tier = "quick" THEN {"*", "+", "<", "in", "==", "&&", "||"} ELSE LevelOps \ {"insuper"}
-Ctxs(h) ==
-  {Bin(o, h, Y) : o \in CtxOps} \cup {Bin(o, X, h) : o \in CtxOps} \cup {Un(u, h) : u \in {"-", "!"}}
-  \cup { InSuper(h), Paren(h),
-         Fld(h, "f"), Idx(h, X), Idx(X, h), Sl(h, X, None, None, 1), Sl(X, h, None, None, 1), Sl(X, None, h, None, 1),
-         Sl(X, None, None, h, 2), Sl(X, h, Y, Z, 1), CallP(h, <<>>), CallP(h, <<X>>), CallP(X, <<h>>), CallP(X, <<h, Y>>),
-         Call(X, <<<<"named", "y", h>>>>, FALSE, FALSE), ObjExt(h, EmptyObj), Arr(<<h>>, FALSE), Arr(<<h, X>>, TRUE),
-         <<"superi", h>>,
-         Err(h), Local(<<Bd("v", Y)>>, h), Local(<<Bd("v", h)>>, Y), Local(<<Bd("v", h), Bd("w", X)>>, Y),
-         If(X, Y, h), If(X, h, Y), If(h, X, Y), If(X, h, None), If(h, X, None),
-         Func(Ps(<<Pm("p")>>, FALSE), h), Func(Ps(<<Pd("p", h)>>, FALSE), Y),
-         AssertE(As(X, None), h), AssertE(As(h, None), X), AssertE(As(X, h), Y), AssertE(As(h, X), Y),
-         Imp("import", h),
-         Obj(<<FV(Fid("a"), ":", h)>>, FALSE), Obj(<<FV(Fex(h), ":", X)>>, FALSE), Obj(<<As(h, None)>>, FALSE),
-         Obj(<<As(X, h), FV(Fid("a"), "::", Y)>>, FALSE), Obj(<<MLoc(Bd("v", h))>>, TRUE),
-         <<"arrcomp", h, <<For("v", Y)>>, FALSE>>, <<"arrcomp", X, <<For("v", h)>>, FALSE>>,
-         <<"arrcomp", X, <<For("v", h), Cif(Y)>>, FALSE>>, <<"arrcomp", X, <<For("v", Y), Cif(h)>>, FALSE>>,
-         <<"arrcomp", X, <<For("v", Y), Cif(h), For("w", Z)>>, TRUE>>,
-         <<"objcomp", <<>>, h, FALSE, X, <<>>, <<For("v", Y)>>, FALSE>>,
-         <<"objcomp", <<>>, X, FALSE, h, <<>>, <<For("v", Y)>>, FALSE>>,
-         <<"objcomp", <<>>, X, TRUE, Y, <<MLoc(Bd("w", h))>>, <<For("v", Z)>>, FALSE>>,
-         <<"objcomp", <<>>, X, FALSE, Y, <<>>, <<For("v", h)>>, FALSE>> }
-Fillers(u_) ==
-  {A, N1, S1, <<"self">>, <<"dollar">>, <<"superf", "f">>, <<"tb", "u">>}
-  \cup {Bin(o, A, B) : o \in CtxOps}
-  \cup { Un("-", A), Un("~", A), InSuper(A), Fld(A, "g"), CallP(A, <<>>), Idx(A, B), ObjExt(A, EmptyObj),
-         Err(A), If(A, B, None), If(A, B, C), Local(<<Bd("w", A)>>, B), Func(Ps(<<Pm("q")>>, FALSE), A),
-         AssertE(As(A, None), B), AssertE(As(A, B), C), Imp("importstr", S1), Paren(A), EmptyObj, Arr(<<>>, FALSE),
-         Bin("in", A, <<"superf", "f">>), Bin("in", A, <<"superi", B>>), Bin("+", A, Err(B)),
-         Bin("*", A, If(B, C, None)), Un("-", Func(Ps(<<>>, FALSE), A)) }
-Depth1(u_) == UNION {Ctxs(f) : f \in Fillers(0)}
-Depth2All(u_) == UNION {Ctxs(x) : x \in Depth1(0)}
-Depth2(u_) == IF Tier = "quick" THEN RandomSubset(9000, Depth2All(0)) ELSE Depth2All(0)
-Depth3(u_) == LET d2 == RandomSubset(2000, Depth2All(0)) IN RandomSubset(60000, UNION {Ctxs(x) : x \in d2})
+CtxOpSeq == IF Tier = "quick" THEN <<"*", "+", "<", "in", "==", "&&", "||">>
+            ELSE <<"*", "+", "<<", "<", "in", "==", "&", "^", "|", "&&", "||">>
+CtxList(h) ==
+  [k \in 1..Len(CtxOpSeq) |-> Bin(CtxOpSeq[k], h, Y)] \o [k \in 1..Len(CtxOpSeq) |-> Bin(CtxOpSeq[k], X, h)]
+  \o << Un("-", h), Un("!", h), InSuper(h), Paren(h),
+        Fld(h, "f"), Idx(h, X), Idx(X, h), Sl(h, X, None, None, 1), Sl(X, h, None, None, 1), Sl(X, None, h, None, 1),
+        Sl(X, None, None, h, 2), Sl(X, h, Y, Z, 1), CallP(h, <<>>), CallP(h, <<X>>), CallP(X, <<h>>), CallP(X, <<h, Y>>),
+        Call(X, <<<<"named", "y", h>>>>, FALSE, FALSE), ObjExt(h, EmptyObj), Arr(<<h>>, FALSE), Arr(<<h, X>>, TRUE),
+        <<"superi", h>>,
+        Err(h), Local(<<Bd("v", Y)>>, h), Local(<<Bd("v", h)>>, Y), Local(<<Bd("v", h), Bd("w", X)>>, Y),
+        If(X, Y, h), If(X, h, Y), If(h, X, Y), If(X, h, None), If(h, X, None),
+        Func(Ps(<<Pm("p")>>, FALSE), h), Func(Ps(<<Pd("p", h)>>, FALSE), Y),
+        AssertE(As(X, None), h), AssertE(As(h, None), X), AssertE(As(X, h), Y), AssertE(As(h, X), Y),
+        Imp("import", h),
+        Obj(<<FV(Fid("a"), ":", h)>>, FALSE), Obj(<<FV(Fex(h), ":", X)>>, FALSE), Obj(<<As(h, None)>>, FALSE),
+        Obj(<<As(X, h), FV(Fid("a"), "::", Y)>>, FALSE), Obj(<<MLoc(Bd("v", h))>>, TRUE),
+        <<"arrcomp", h, <<For("v", Y)>>, FALSE>>, <<"arrcomp", X, <<For("v", h)>>, FALSE>>,
+        <<"arrcomp", X, <<For("v", h), Cif(Y)>>, FALSE>>, <<"arrcomp", X, <<For("v", Y), Cif(h)>>, FALSE>>,
+        <<"arrcomp", X, <<For("v", Y), Cif(h), For("w", Z)>>, TRUE>>,
+        <<"objcomp", <<>>, h, FALSE, X, <<>>, <<For("v", Y)>>, FALSE>>,
+        <<"objcomp", <<>>, X, FALSE, h, <<>>, <<For("v", Y)>>, FALSE>>,
+        <<"objcomp", <<>>, X, TRUE, Y, <<MLoc(Bd("w", h))>>, <<For("v", Z)>>, FALSE>>,
+        <<"objcomp", <<>>, X, FALSE, Y, <<>>, <<For("v", h)>>, FALSE>> >>
+NCtx == Len(CtxList(A))
+Ctx(i, h) == CtxList(h)[i]
+FillerSeq ==
+  <<A, N1, S1, <<"self">>, <<"dollar">>, <<"superf", "f">>, <<"tb", "u">>>>
+  \o [k \in 1..Len(CtxOpSeq) |-> Bin(CtxOpSeq[k], A, B)]
+  \o << Un("-", A), Un("~", A), InSuper(A), Fld(A, "g"), CallP(A, <<>>), Idx(A, B), ObjExt(A, EmptyObj),
+        Err(A), If(A, B, None), If(A, B, C), Local(<<Bd("w", A)>>, B), Func(Ps(<<Pm("q")>>, FALSE), A),
+        AssertE(As(A, None), B), AssertE(As(A, B), C), Imp("importstr", S1), Paren(A), EmptyObj, Arr(<<>>, FALSE),
+        Bin("in", A, <<"superf", "f">>), Bin("in", A, <<"superi", B>>), Bin("+", A, Err(B)),
+        Bin("*", A, If(B, C, None)), Un("-", Func(Ps(<<>>, FALSE), A)) >>
+NFill == Len(FillerSeq)
+D1Descs == {<<"d1", i, f>> : i \in 1..NCtx, f \in 1..NFill}
+D2All == {<<"d2", i, j, f>> : i \in 1..NCtx, j \in 1..NCtx, f \in 1..NFill}
+D2Descs == IF Tier = "quick" THEN RandomSubset(9000, D2All) ELSE D2All
+D3Descs == RandomSubset(IF Tier = "quick" THEN 0 ELSE 60000,
+                        {<<"d3", i, j, k, f>> : i \in 1..NCtx, j \in 1..NCtx, k \in 1..NCtx, f \in 1..NFill})
 
 (* --- part 5: postfix chains -------------------------------------------------- *)
-SliceForms(h) ==
-  {Sl(h, a, None, None, lay) : a \in {None, X}, lay \in {1, 2, 3}}
-  \cup {Sl(h, a, Y, None, lay) : a \in {None, X}, lay \in {1, 2}}
-  \cup {Sl(h, a, None, Z, lay) : a \in {None, X}, lay \in {2, 3}}
-  \cup {Sl(h, a, Y, Z, 1) : a \in {None, X}}
-  \cup {Sl(h, <<"dollar">>, None, None, 1), Sl(h, <<"dollar">>, None, Un("-", N1), 2),
-        Sl(h, None, Un("-", N1), None, 1), Sl(h, None, None, Un("-", N1), 3)}
-CallForms(h) ==
-  {Call(h, <<>>, FALSE, ts) : ts \in BOOLEAN}
-  \cup {Call(h, args, tc, ts) :
-          args \in {Pos(<<X>>), Pos(<<X, Y>>), <<<<"named", "p", X>>>>, <<<<"pos", X>>, <<"named", "q", Y>>>>,
-                    <<<<"named", "p", X>>, <<"named", "q", Y>>>>},
-          tc \in BOOLEAN, ts \in BOOLEAN}
-PostForms(h) ==
-  {Fld(h, "f"), Idx(h, X), ObjExt(h, EmptyObj), ObjExt(h, Obj(<<FV(Fid("a"), ":", X)>>, TRUE)),
-   ObjExt(h, <<"objcomp", <<>>, <<"var", "k">>, FALSE, X, <<>>, <<For("k", Y)>>, FALSE>>)}
-  \cup SliceForms(h) \cup CallForms(h)
-Targets(u_) == {A, N1, S1, <<"self">>, <<"dollar">>, <<"superf", "f">>, <<"superi", X>>, Paren(A), EmptyObj,
-            Arr(<<A>>, FALSE), <<"tb", "u">>, <<"null">>, <<"true">>, <<"false">>}
-Chain1(u_) == UNION {PostForms(t) : t \in Targets(0)}
-Chain2All(u_) == UNION {PostForms(x) : x \in Chain1(0)}
-Chain2(u_) == IF Tier = "quick" THEN RandomSubset(3000, Chain2All(0)) ELSE Chain2All(0)
-Chain3(u_) == LET c2 == RandomSubset(1500, Chain2All(0)) IN RandomSubset(50000, UNION {PostForms(x) : x \in c2})
+PostList(h) ==
+  << Fld(h, "f"), Idx(h, X), ObjExt(h, EmptyObj), ObjExt(h, Obj(<<FV(Fid("a"), ":", X)>>, TRUE)),
+     ObjExt(h, <<"objcomp", <<>>, <<"var", "k">>, FALSE, X, <<>>, <<For("k", Y)>>, FALSE>>),
+     \* the colon layouts of slices
+     Sl(h, None, None, None, 1), Sl(h, None, None, None, 2), Sl(h, None, None, None, 3),
+     Sl(h, X, None, None, 1), Sl(h, X, None, None, 2), Sl(h, X, None, None, 3),
+     Sl(h, None, Y, None, 1), Sl(h, None, Y, None, 2), Sl(h, X, Y, None, 1), Sl(h, X, Y, None, 2),
+     Sl(h, None, None, Z, 2), Sl(h, None, None, Z, 3), Sl(h, X, None, Z, 2), Sl(h, X, None, Z, 3),
+     Sl(h, None, Y, Z, 1), Sl(h, X, Y, Z, 1),
+     Sl(h, <<"dollar">>, None, None, 1), Sl(h, <<"dollar">>, None, Un("-", N1), 2),
+     Sl(h, None, Un("-", N1), None, 1), Sl(h, None, None, Un("-", N1), 3),
+     \* calls
+     Call(h, <<>>, FALSE, FALSE), Call(h, <<>>, FALSE, TRUE),
+     Call(h, Pos(<<X>>), FALSE, FALSE), Call(h, Pos(<<X>>), TRUE, FALSE), Call(h, Pos(<<X>>), FALSE, TRUE),
+     Call(h, Pos(<<X>>), TRUE, TRUE), Call(h, Pos(<<X, Y>>), FALSE, FALSE), Call(h, Pos(<<X, Y>>), TRUE, TRUE),
+     Call(h, <<<<"named", "p", X>>>>, FALSE, FALSE), Call(h, <<<<"named", "p", X>>>>, TRUE, TRUE),
+     Call(h, <<<<"pos", X>>, <<"named", "q", Y>>>>, FALSE, FALSE), Call(h, <<<<"pos", X>>, <<"named", "q", Y>>>>, TRUE, FALSE),
+     Call(h, <<<<"named", "p", X>>, <<"named", "q", Y>>>>, FALSE, TRUE) >>
+NPostForms == Len(PostList(A))
+TargetSeq == <<A, N1, S1, <<"self">>, <<"dollar">>, <<"superf", "f">>, <<"superi", X>>, Paren(A), EmptyObj,
+               Arr(<<A>>, FALSE), <<"tb", "u">>, <<"null">>, <<"true">>, <<"false">>>>
+NTargets == Len(TargetSeq)
+C1Descs == {<<"c1", t, p1>> : t \in 1..NTargets, p1 \in 1..NPostForms}
+C2All == {<<"c2", t, p1, p2>> : t \in 1..NTargets, p1 \in 1..NPostForms, p2 \in 1..NPostForms}
+C2Descs == IF Tier = "quick" THEN RandomSubset(3000, C2All) ELSE C2All
+C3Descs == RandomSubset(IF Tier = "quick" THEN 0 ELSE 50000,
+                        {<<"c3", t, p1, p2, p3>> : t \in 1..NTargets, p1 \in 1..NPostForms, p2 \in 1..NPostForms,
+                                                   p3 \in 1..NPostForms})
 
 (* --- part 6: object bodies ----------------------------------------------------- *)
 MemberPool == <<MLoc(Bd("v", N1)), MLoc(BdF("g", Ps(<<Pm("p"), Pd("q", N2)>>, FALSE), <<"var", "p">>)),
                 As(A, None), As(A, B), FV(Fid("a"), ":", N1), FV(Fstr("s"), "+::", N2), FV(Fex(X), ":", Y),
                 FF(Fid("m"), Ps(<<Pm("p")>>, TRUE), "::", <<"var", "p">>), FV(Fex(X), "+:", Y)>>
 NPool == Len(MemberPool)
-ObjSeqs(u_) ==
-  {<<MemberPool[i]>> : i \in 1..NPool} \cup {<<MemberPool[i], MemberPool[j]>> : i, j \in 1..NPool}
-  \cup {<<MemberPool[i], MemberPool[j], MemberPool[k]>> : i, j, k \in (IF Tier = "quick" THEN {1, 3, 5, 7, 8} ELSE 1..NPool)}
-ObjBodies(u_) ==
-  {Obj(ms, tc) : ms \in ObjSeqs(0), tc \in BOOLEAN}
-  \cup {Obj(<<FV(n, pv, X)>>, FALSE) : n \in {Fid("a"), Fstr("t"), Fex(Y), Fex(Bin("+", A, B))}, pv \in PlusVis}
+Pool3 == IF Tier = "quick" THEN {1, 3, 5, 7, 8} ELSE 1..NPool
+ObjDescs ==
+  {<<"o1", i, tc>> : i \in 1..NPool, tc \in BOOLEAN} \cup {<<"o2", i, j, tc>> : i \in 1..NPool, j \in 1..NPool, tc \in BOOLEAN}
+  \cup {<<"o3", i, j, k, tc>> : i \in Pool3, j \in Pool3, k \in Pool3, tc \in BOOLEAN}
+ObjOthers ==
+  {Obj(<<FV(n, pv, X)>>, FALSE) : n \in {Fid("a"), Fstr("t"), Fex(Y), Fex(Bin("+", A, B))}, pv \in PlusVis}
   \cup {Obj(<<FF(n, ps, vis, X)>>, FALSE) : n \in {Fid("a"), Fstr("t"), Fex(Y)},
                                              ps \in {Ps(<<>>, FALSE), Ps(<<Pm("p"), Pm("q")>>, FALSE), Ps(<<Pd("p", N1)>>, TRUE)},
                                              vis \in {":", "::", ":::"}}
@@ -183,7 +205,7 @@ LocalSeqs == {<<>>, <<L1>>, <<L1, L2>>}
 SpecSeqs == {<<For("k", X)>>, <<For("k", X), Cif(Y)>>, <<For("k", X), For("m", <<"var", "k">>)>>,
              <<For("k", X), Cif(Y), For("m", Z), Cif(A)>>, <<For("k", Bin("in", A, B)), Cif(Bin("in", A, B))>>,
              <<For("k", If(A, B, None)), Cif(If(A, B, None))>>}
-Comps(u_) ==
+Comps ==
   {<<"objcomp", l1, <<"var", "k">>, plus, Y, l2, sp, tc>> :
        l1 \in LocalSeqs, plus \in BOOLEAN, l2 \in LocalSeqs, sp \in SpecSeqs, tc \in BOOLEAN}
   \cup {Obj(l1 \o <<FV(Fex(<<"var", "k">>), pv, Y)>> \o l2, tc) : l1 \in LocalSeqs, l2 \in LocalSeqs, pv \in PlusVis, tc \in BOOLEAN}
@@ -197,7 +219,7 @@ Comps(u_) ==
 ParamLists == {Ps(<<>>, FALSE), Ps(<<Pm("p")>>, FALSE), Ps(<<Pm("p")>>, TRUE), Ps(<<Pm("p"), Pm("q")>>, FALSE),
                Ps(<<Pd("p", N1)>>, FALSE), Ps(<<Pm("p"), Pd("q", Bin("+", <<"var", "p">>, N1))>>, TRUE),
                Ps(<<Pd("p", If(A, B, None)), Pd("q", Err(A))>>, FALSE)}
-Misc(u_) ==
+Misc ==
   {Func(ps, b) : ps \in ParamLists, b \in {A, Bin("+", A, B), Func(Ps(<<Pm("x")>>, FALSE), X)}}
   \cup {Local(<<BdF("g", ps, A)>>, B) : ps \in ParamLists}
   \cup {Local(<<Bd("v", A), BdF("g", Ps(<<Pm("p")>>, FALSE), B), Bd("w", C)>>, D)}
@@ -214,21 +236,36 @@ Misc(u_) ==
         If(A, Local(<<Bd("v", B)>>, If(C, D, None)), X), If(A, Un("-", If(B, C, None)), D),
         If(A, Func(Ps(<<>>, FALSE), If(B, C, None)), D), If(A, If(B, C, None), None),
         AssertE(As(If(A, B, None), If(A, B, None)), C)}
+TreeDescs == {<<"tree", e>> : e \in ObjOthers \cup Comps \cup Misc}
 
-NParts == 16
+TreeOf(d) ==
+  LET k == d[1] IN
+  CASE k = "pair" -> PairTree(d[2], d[3], d[4])
+    [] k = "triple" -> TripleTree(d[2], d[3], d[4], d[5])
+    [] k = "ubp" -> UbpTree(d[2], d[3], d[4], d[5])
+    [] k = "d1" -> Ctx(d[2], FillerSeq[d[3]])
+    [] k = "d2" -> Ctx(d[2], Ctx(d[3], FillerSeq[d[4]]))
+    [] k = "d3" -> Ctx(d[2], Ctx(d[3], Ctx(d[4], FillerSeq[d[5]])))
+    [] k = "c1" -> PostList(TargetSeq[d[2]])[d[3]]
+    [] k = "c2" -> PostList(PostList(TargetSeq[d[2]])[d[3]])[d[4]]
+    [] k = "c3" -> PostList(PostList(PostList(TargetSeq[d[2]])[d[3]])[d[4]])[d[5]]
+    [] k = "o1" -> Obj(<<MemberPool[d[2]]>>, d[3])
+    [] k = "o2" -> Obj(<<MemberPool[d[2]], MemberPool[d[3]]>>, d[4])
+    [] k = "o3" -> Obj(<<MemberPool[d[2]], MemberPool[d[3]], MemberPool[d[4]]>>, d[5])
+    [] k = "tree" -> d[2]
+
+NParts == 10
 Part(i) ==
-  CASE i = 1 -> Pairs(0)
-    [] i \in 2..6 -> Triples(i - 1)
-    [] i = 7 -> UBP("-")
-    [] i = 8 -> UBP("!")
-    [] i = 9 -> IF Tier = "quick" THEN {} ELSE UBP("+") \cup UBP("~")
-    [] i = 10 -> Depth1(0)
-    [] i = 11 -> Depth2(0)
-    [] i = 12 -> Chain1(0) \cup Chain2(0)
-    [] i = 13 -> ObjBodies(0)
-    [] i = 14 -> Comps(0)
-    [] i = 15 -> Misc(0)
-    [] i = 16 -> IF Tier = "quick" THEN {} ELSE Depth3(0) \cup Chain3(0)
+  CASE i = 1 -> PairDescs
+    [] i = 2 -> TripleDescs
+    [] i = 3 -> UbpDescs
+    [] i = 4 -> D1Descs
+    [] i = 5 -> D2Descs
+    [] i = 6 -> C1Descs \cup C2Descs
+    [] i = 7 -> ObjDescs
+    [] i = 8 -> TreeDescs
+    [] i = 9 -> D3Descs
+    [] i = 10 -> C3Descs
 
 (* ------------------------------------------------------------------------ *)
 Expected(toks) ==
@@ -248,22 +285,30 @@ MutCases(e) ==
   [i \in 1..Len(ms) |-> [kind |-> ms[i].kind, at |-> ms[i].at, toks |-> ms[i].toks, sep |-> SepCodes(ms[i].toks),
                          exp |-> Expected(ms[i].toks)]]
 
+(* One cheap initial state per tree; the work is done when the invariant is    *)
+(* evaluated on the successor (ph = 1), i.e. by TLC's workers in parallel.      *)
 Init ==
-  \E i \in Parts :
-    IF Mode = "trees"
-    THEN \E e \in Part(i) : c = e /\ pm = PrintTree(e, "min") /\ pr = PrintTree(e, "red")
-    ELSE \E e \in (IF Cardinality(Part(i)) <= MutSample THEN Part(i) ELSE RandomSubset(MutSample, Part(i))) :
-           c = e /\ pm = MutCases(e) /\ pr = 0
-Next == UNCHANGED <<c, pm, pr>>
-
-Laws ==
-  IF Mode = "trees" THEN TreeLaws(c, pm, pr)
-  ELSE \A i \in 1..Len(pm) : LawRoundTrip(pm[i].toks)
+  /\ ph = 0
+  /\ \E i \in Parts :
+       IF Mode = "trees" THEN c \in Part(i)
+       ELSE c \in (IF Cardinality(Part(i)) <= MutSample THEN Part(i) ELSE RandomSubset(MutSample, Part(i)))
+Next == ph = 0 /\ ph' = 1 /\ UNCHANGED c
 
 Case(p, st) == [st |-> st, toks |-> p.t, sep |-> SepCodes(p.t), core |-> InCore(p.t),
                 exp |-> [d |-> "accept", tree |-> p.n]]
-Emit ==
-  IF Mode = "trees"
-  THEN PrintT(<<"CASE", ToJson(Case(pm, "min"))>>) /\ PrintT(<<"CASE", ToJson(Case(pr, "red"))>>)
-  ELSE \A i \in 1..Len(pm) : PrintT(<<"CASE", ToJson(pm[i])>>)
+Laws(pm, pr) == TreeLaws(TreeOf(c), pm, pr)
+Emit(pm, pr) == PrintT(<<"CASE", ToJson(Case(pm, "min"))>>) /\ PrintT(<<"CASE", ToJson(Case(pr, "red"))>>)
+MutLaws(ms) == \A i \in 1..Len(ms) : LawRoundTrip(ms[i].toks)
+MutEmit(ms) == \A i \in 1..Len(ms) : PrintT(<<"CASE", ToJson(ms[i])>>)
+
+LawsAndEmit ==
+  ph = 1 =>
+    IF Mode = "trees"
+    THEN LET pm == PrintTree(c, "min")
+             pr == PrintTree(c, "red") IN
+         Laws(pm, pr) /\ Emit(pm, pr)
+    ELSE LET ms == MutCases(TreeOf(c)) IN MutLaws(ms) /\ MutEmit(ms)
+LawsOnly ==
+  ph = 1 =>
+    IF Mode = "trees" THEN Laws(PrintTree(TreeOf(c), "min"), PrintTree(TreeOf(c), "red")) ELSE MutLaws(MutCases(TreeOf(c)))
 =============================================================================
